@@ -2,6 +2,7 @@
   Lemmas/StatsNumstat.lean — git's numstat rendering parsed back by `get_git_diff_stats` (C19).
 -/
 import GitAiModel.Lemmas.Stats
+import GitAiModel.Lemmas.StatsUnescape
 import GitAiModel.Lemmas.NoteFormat
 namespace GitAi.Stats
 open GitAi GitAi.NoteFormat
@@ -76,14 +77,14 @@ theorem isDigit_not_ws (c : Char) (h : isDigit c = true) : isWhitespace c = fals
   simp only [Bool.or_eq_false_iff, Bool.and_eq_false_iff, decide_eq_false_iff_not]
   refine ⟨⟨⟨⟨⟨⟨⟨⟨⟨⟨?_, ?_⟩, ?_⟩, ?_⟩, ?_⟩, ?_⟩, ?_⟩, ?_⟩, ?_⟩, ?_⟩, ?_⟩ <;> omega
 
-/-- what a record is worth: nothing when binary or ignored (the predicate sees the path as
-    git prints it) -/
+/-- what a record is worth: nothing when binary or ignored (the predicate sees the real path:
+    the bytes as a string) -/
 def recValue (ign : Str → Bool) (r : NumRec) : Nat × Nat :=
   match r.counts with
-  | some (a, d) => if ign (gitQuote r.path) then (0, 0) else (a, d)
+  | some (a, d) => if ign (pathStr r.path) then (0, 0) else (a, d)
   | none => (0, 0)
 
-theorem numstatLine_renderRec (ign : Str → Bool) (r : NumRec)
+theorem numstatLine_renderRec (ign : Str → Bool) (r : NumRec) (hbytes : ∀ b ∈ r.path, b < 256)
     (hfit : ∀ a d, r.counts = some (a, d) → a < 4294967296 ∧ d < 4294967296) :
     numstatLine ign (renderRec r) = recValue ign r := by
   have hq : '\t' ∉ gitQuote r.path := fun h => gitQuote_clean r.path _ h (Or.inl rfl)
@@ -110,7 +111,7 @@ theorem numstatLine_renderRec (ign : Str → Bool) (r : NumRec)
       rw [hcr]; simpa [startsWithDigit] using hdig
     rw [hws, hhead]
     have hdash : natToStr d ≠ ['-'] := fun e => natToStr_no_dash d (by rw [e]; simp)
-    simp only [Bool.false_eq_true, if_false, Bool.not_true, parseU32_natToStr a ha,
+    simp only [unescape_gitQuote r.path hbytes, Bool.false_eq_true, if_false, Bool.not_true, parseU32_natToStr a ha,
       parseU32_natToStr d hd, Option.getD_some, ne_eq, hdash, not_false_eq_true, if_true]
 
 theorem renderRec_line_ok (r : NumRec) : '\n' ∉ renderRec r ∧ (renderRec r).getLast? ≠ some '\r' := by
@@ -152,15 +153,18 @@ def sumRecs (ign : Str → Bool) : List NumRec → Nat × Nat
   | r :: rs => ((recValue ign r).1 + (sumRecs ign rs).1, (recValue ign r).2 + (sumRecs ign rs).2)
 
 theorem numstatLines_render (ign : Str → Bool) (rs : List NumRec)
+    (hbytes : ∀ r ∈ rs, ∀ b ∈ r.path, b < 256)
     (hfit : ∀ r ∈ rs, ∀ a d, r.counts = some (a, d) → a < 4294967296 ∧ d < 4294967296) :
     numstatLines ign (rs.map renderRec) = sumRecs ign rs := by
   induction rs with
   | nil => rfl
   | cons r rs ih =>
     simp only [List.map_cons, numstatLines, sumRecs]
-    rw [numstatLine_renderRec ign r (hfit r (by simp)), ih (fun r' hr' => hfit r' (by simp [hr']))]
+    rw [numstatLine_renderRec ign r (hbytes r (by simp)) (hfit r (by simp)),
+      ih (fun r' hr' => hbytes r' (by simp [hr'])) (fun r' hr' => hfit r' (by simp [hr']))]
 
 theorem numstat_render (ign : Str → Bool) (rs : List NumRec)
+    (hbytes : ∀ r ∈ rs, ∀ b ∈ r.path, b < 256)
     (hfit : ∀ r ∈ rs, ∀ a d, r.counts = some (a, d) → a < 4294967296 ∧ d < 4294967296) :
     numstat ign (renderNumstat rs) = sumRecs ign rs := by
   unfold numstat renderNumstat
@@ -169,6 +173,6 @@ theorem numstat_render (ign : Str → Bool) (rs : List NumRec)
   simp only [List.append_nil] at h
   have h0 : rustLines [] = [] := by decide
   rw [h, h0, List.append_nil]
-  exact numstatLines_render ign rs hfit
+  exact numstatLines_render ign rs hbytes hfit
 
 end GitAi.Stats
